@@ -526,11 +526,21 @@ def c02Step (sin sobs : Json) : Option String :=
     | some e => (jget e.resp "ok").getStr?.toOption
     | none => (storedTruth.getObjValAs? String u).toOption
   let rest := r.filter fun u => (storedInbox u).isNone
-  let depth : Int := depthOf evs
+  -- the configured depth: what the application answered, else the scenario's setting (the code may not have asked)
+  let depth : Int := if evs.any (fun e => e.name == "maxDeliveryDepth") then depthOf evs
+    else ((sin.getObjVal? "maxDeliveryDepth").toOption.bind fun j => j.getInt?.toOption).getD 0
   if depth ≤ 0 then none else
-  let owner := (evs.find? fun e => e.name == "actorForOutbox").bind fun e => (jget e.resp "ok").getStr?.toOption
-  let ownDoc : Option J := owner.bind fun o => (evs.findSome? fun e =>
-    if e.name == "get" && (e.args.getD 0 Json.null).getStr?.toOption == some o && !isErr e.resp then some (J.norm (toJ (jget e.resp "ok"))) else none)
+  let owner : Option Iri := match (evs.find? fun e => e.name == "actorForOutbox").bind (fun e => (jget e.resp "ok").getStr?.toOption) with
+    | some o => some o
+    | none => (sin.getObjValAs? String "sender").toOption
+  -- the sender's actor document: what the Database answered, else the scenario's ground truth (the code may not have
+  -- asked at all)
+  let ownDoc : Option J := match owner.bind (fun o => (evs.findSome? fun e =>
+      if e.name == "get" && (e.args.getD 0 Json.null).getStr?.toOption == some o && !isErr e.resp then some (J.norm (toJ (jget e.resp "ok"))) else none)) with
+    | some d => some d
+    | none => (match (sin.getObjVal? "senderDoc").toOption with
+      | some (.obj kvs) => if evs.any (fun e => isErr e.resp) then none else some (J.norm (toJ (.obj kvs)))
+      | _ => none)
   match ownDoc with
   | none => none
   | some meDoc =>
@@ -757,6 +767,9 @@ def c04Step (sin sobs : Json) : Option String :=
   | none =>
   if faulty then none else
   let succeeded := (jstr sobs "err") == "nil" && evs.any fun e => e.name == "writeHeader" && (e.args.getD 0 Json.null).getNat?.toOption == some 200
+  -- the wrapped application callback of this type runs whenever the default effect went through
+  if succeeded && wrapped.contains ty && !(phase.any fun e => e.name == "appCb") then
+    some s!"the request succeeded but the wrapped {ty} callback the application registered was not run" else
   if (ty == "Add" || ty == "Remove") && succeeded then
     -- every target is looked at: Owns is asked about each of them, in order
     let targets := match Val.prop facts v "target" with
